@@ -310,52 +310,36 @@ template <typename FN, typename TA, typename TB, typename DT, int KA, int KB> in
 }
 
 // ------------------------------------------------------------------------------------------------ shape alphabets
-// Restriction w.r.t. DESIGN.md (all compatible pairs of S(0..3,3) / S(0..4,3)), to keep the quick tier inside its budget:
-//   quick   : ALL ordered pairs (compatible and incompatible) of S(1..3,2) [14 shapes, 196 pairs] plus every broadcast pattern
-//             class in concrete shapes with extent 3 (list below, each in both operand orders);
-//   thorough: ALL ordered pairs of S(1..3,3) [39 shapes, 1521 pairs] (contains the quick set) plus rank-4 representatives.
-// 0-dim arrays do not exist in nmtools: the "0-dim / scalar" member of the alphabet is a plain number (operand kind S).
-inline const std::vector<std::pair<L, L>>& pattern_pairs() {
-    static const std::vector<std::pair<L, L>> p = {
-        {{3}, {3}}, {{2, 3}, {2, 3}}, {{3, 2, 3}, {3, 2, 3}},                               // same shape
-        {{1, 3}, {2, 3}}, {{3, 1}, {3, 3}}, {{1, 2, 3}, {3, 2, 3}}, {{3, 2, 1}, {3, 2, 3}},  // size-1 axis in one operand (outer / inner)
-        {{3, 1, 3}, {3, 2, 3}}, {{2, 1, 3}, {2, 3, 3}},                                     // size-1 middle axis
-        {{3, 1}, {1, 3}}, {{3, 1, 3}, {1, 2, 1}}, {{1, 2, 3}, {3, 1, 1}}, {{2, 1, 3}, {1, 3, 1}},   // size-1 axes in both operands
-        {{3}, {2, 3}}, {{3}, {3, 2, 3}}, {{2, 3}, {3, 2, 3}}, {{1}, {3, 2, 3}},             // rank extension
-        {{3}, {3, 1}}, {{3}, {2, 3, 1}}, {{3, 1}, {2, 1, 3}}, {{1, 3}, {3, 1, 1}},          // rank extension + stretching on both
-        {{3}, {2}}, {{2, 3}, {3, 2}}, {{3, 1, 3}, {2, 3}}, {{3, 2, 3}, {2, 2, 3}}, {{3}, {3, 2}}, {{2, 3}, {3, 3, 2}},   // incompatible
-    };
-    return p;
-}
+// DESIGN.md: operand shapes from S(0..3,3) (quick) / S(0..4,3) (thorough).  0-dim arrays do not exist in nmtools: the 0-dim member of
+// the alphabet is a plain number (operand kind S).  ALL ordered pairs are enumerated - compatible ones (every broadcast pattern class:
+// same shape, size-1 axis on the left / right / in the middle / in both operands, rank extension of either operand) and incompatible
+// ones (Nothing expected).
+//   pairs   : quick S(1..3,3)^2 = 1521, thorough S(1..4,3)^2 = 14400
+//   triples : quick S(1..3,2)^3 + S(1..2,3)^3 = 2744 + 1728, thorough S(1..3,3)^3 = 59319            (where)
+//   single  : quick S(1..3,3) + S(4,2), thorough S(1..4,3)                                          (unary; the array side of array-with-scalar)
+//   outer   : quick S(1..2,3)^2 = 144 (DESIGN.md), thorough S(1..3,3)^2 = 1521
 template <typename F> inline void each_shape_pair(bool thorough, F&& f) {
     std::vector<L> sh;
-    nmc::each_shape_range(1, 3, thorough ? 3 : 2, [&](const L& s) { sh.push_back(s); });
+    nmc::each_shape_range(1, thorough ? 4 : 3, 3, [&](const L& s) { sh.push_back(s); });
     for (auto& a : sh) for (auto& b : sh) f(a, b);
-    if (!thorough) for (auto& p : pattern_pairs()) { f(p.first, p.second); if (p.first != p.second) f(p.second, p.first); }
-    else { f(L{2, 1, 3, 1}, L{3, 1, 2}); f(L{3, 1, 2}, L{2, 1, 3, 1}); f(L{2, 2, 2, 2}, L{2, 2}); f(L{2}, L{2, 2, 2, 2}); f(L{2, 3, 1, 2}, L{2, 3, 3, 1}); }
 }
-// shapes of the single array operand (unary functions; the array side of array-with-scalar)
 template <typename F> inline void each_single_shape(bool thorough, F&& f) {
-    nmc::each_shape_range(1, 3, thorough ? 3 : 2, [&](const L& s) { f(s); });
-    if (!thorough) { f(L{3}); f(L{2, 3}); f(L{3, 1}); f(L{3, 2, 3}); f(L{1, 3, 2}); }
-    f(L{2, 1, 3, 2});
+    nmc::each_shape_range(1, thorough ? 4 : 3, 3, [&](const L& s) { f(s); });
+    if (!thorough) nmc::each_shape(4, 2, [&](const L& s) { f(s); });
 }
-// outer: all pairs from S(1..2,3) (DESIGN.md), quick: S(1..2,2) plus extent-3 representatives
 template <typename F> inline void each_outer_pair(bool thorough, F&& f) {
     std::vector<L> sh;
-    nmc::each_shape_range(1, 2, thorough ? 3 : 2, [&](const L& s) { sh.push_back(s); });
-    if (!thorough) { sh.push_back(L{3}); sh.push_back(L{2, 3}); sh.push_back(L{3, 1}); }
+    nmc::each_shape_range(1, thorough ? 3 : 2, 3, [&](const L& s) { sh.push_back(s); });
     for (auto& a : sh) for (auto& b : sh) f(a, b);
 }
-// where: triples
 template <typename F> inline void each_shape_triple(bool thorough, F&& f) {
-    std::vector<L> sh;
-    if (thorough) nmc::each_shape_range(1, 3, 2, [&](const L& s) { sh.push_back(s); });
-    else nmc::each_shape_range(1, 2, 2, [&](const L& s) { sh.push_back(s); });
-    for (auto& a : sh) for (auto& b : sh) for (auto& c : sh) f(a, b, c);
-    std::vector<L> e3 = {{3}, {1, 3}, {3, 1}, {2, 3}, {2, 1, 3}, {3, 2, 1}, {1, 2, 3}};
-    if (thorough) { e3.push_back({3, 3}); e3.push_back({3, 1, 3}); e3.push_back({3, 2, 3}); e3.push_back({2}); }
-    for (auto& a : e3) for (auto& b : e3) for (auto& c : e3) f(a, b, c);
+    auto cube = [&](int dhi, long e, auto&& skip) {
+        std::vector<L> sh; nmc::each_shape_range(1, dhi, e, [&](const L& s) { sh.push_back(s); });
+        for (auto& a : sh) for (auto& b : sh) for (auto& c : sh) if (!skip(a, b, c)) f(a, b, c);
+    };
+    auto le2 = [](const L& s) { for (long v : s) if (v > 2) return false; return true; };
+    if (thorough) cube(3, 3, [](const L&, const L&, const L&) { return false; });
+    else { cube(3, 2, [](const L&, const L&, const L&) { return false; }); cube(2, 3, [&](const L& a, const L& b, const L& c) { return le2(a) && le2(b) && le2(c); }); }   // second cube: skip triples already emitted
 }
 
 // ------------------------------------------------------------------------------------------------ type-list dispatch
